@@ -82,10 +82,11 @@ PROPS["C02"] = {
               "other lengths: {0,1,2,51,53,63,65,66}; slices 0..=40/70 bytes; CustomAddr: every id, payload length 0..=40 (inline/heap boundary 30/31), all contents",
     "out": "SecretKey / sign / verify (SHA-512 + scalar multiplication), serde/postcard/JSON forms, Display via fmt, RelayUrl / EndpointAddr containing URLs "
            "(Url::parse does not finish under CBMC even on concrete input), non-ASCII strings, CustomAddr::from_str / Display",
-    "stubs": [KEY_ORACLE, KEY_ALLVALID, BT],
+    "stubs": [KEY_ORACLE, KEY_ALLVALID, BT, "curve25519_dalek::edwards::EdwardsPoint::compress -> compress(decompress(b)) = b iff b is canonical (y < p and not x=0 with the sign bit), another string otherwise; never reached on the unchanged tree"],
     "assumptions": ["curve-point validity is an uninterpreted oracle: what is decided is that iroh consults it on exactly the bytes it accepts"],
     "harnesses": [
         H(_K, "c02_key_from_bytes_iff_valid_point", "from_bytes accepts iff the validity oracle accepted exactly these bytes; bytes preserved", "all 32-byte strings"),
+        H(_K, "c02_key_noncanonical_bytes_kept", "the accepted non-canonical encodings (y=p+1, y=p, x=0 with sign bit) are kept byte for byte by from_bytes / TryFrom<&[u8]> / TryFrom<&[u8;32]>, and the three results are equal (replays natively)", "3 concrete non-canonical encodings", stubs=["compress"]),
         H(_K, "c02_key_try_from_slice", "TryFrom<&[u8]>: Ok iff len==32 and oracle yes; other lengths never reach the oracle", "slices of 0..=40 symbolic bytes"),
         H(_K, "c02_key_from_str_hex64_window", "64-char FromStr path == lower-case hex decoding + oracle", "10 symbolic ASCII chars (first/last 5), rest '3'", timeout=900),
         H(_K, "c02_key_from_str_hex64", "64-char FromStr path == lower-case hex decoding + oracle", "all 64 chars symbolic ASCII", tier="thorough", timeout=1500),
@@ -118,6 +119,9 @@ def _c10():
                  (13, 1), (13, 2), (13, 3), (0, 9), (4, 41), (5, 41), (14, 9), (63, 9)]:
         hs.append(H(_R, "c10_decode_r2c_t%d_len%d" % (t, l), "client decoder == reference parse for frame type %d, both versions (Status only in V2; non relay->client types are errors)" % t,
                     "all %d-byte strings with this frame type byte" % l, timeout=900))
+    for d, t, l in [("c2r", 4, 41), ("c2r", 5, 36), ("c2r", 5, 41), ("r2c", 6, 41), ("r2c", 7, 36), ("r2c", 7, 41), ("r2c", 8, 33)]:
+        hs.append(H(_R, "c10_decode_%s_t%d_len%d_zk" % (d, t, l), "natively replayable twin of the same decoder harness: key bytes fixed to the all-zero key (valid without the oracle), so a counterexample in the layout of a key-carrying frame replays against the real build",
+                    "all %d-byte strings with this frame type byte and the zero key" % l, timeout=900))
     hs.append(H(_R, "c10_decode_r2c_t12_len9", "Restarting decodes to its two big-endian u32 millisecond durations", "all 9-byte strings of type 12", tier="thorough", timeout=900))
     hs.append(H(_R, "c10_decode_health", "Health only in V1, text preserved, invalid UTF-8 rejected", "type 11 + 4 symbolic bytes, both versions"))
     hs.append(H(_R, "c10_decode_long_varint_total", "multi-byte varint frame types never panic; out-of-range tags are errors", "12 symbolic bytes, first >= 64", timeout=900))
@@ -167,6 +171,9 @@ PROPS["C32"] = {
         H(_P, "c32_from_bytes_authentic_p4_parse_fails", "from_bytes Ok iff key valid & signature by the embedded key over (prefix||payload) verifies & payload parses; bytes preserved; accessors agree (payload oracle says no => always rejected)", "108-byte packets, all bytes symbolic", timeout=900, stub_env=True, stubs=["decompress", "verify", "Packet::parse", "format"]),
         H(_P, "c32_from_relay_payload_uses_given_key_parses", "from_relay_payload(K,x) verifies under K and embeds K; to_relay_payload inverts (payload oracle says yes)", "74-byte payloads", timeout=900, stub_env=True, stubs=["decompress", "verify", "Packet::parse", "format"]),
         H(_P, "c32_from_relay_payload_uses_given_key_parse_fails", "from_relay_payload(K,x) verifies under K and embeds K; to_relay_payload inverts (payload oracle says no => always rejected)", "74-byte payloads", timeout=900, stub_env=True, stubs=["decompress", "verify", "Packet::parse", "format"]),
+        H(_P, "c32_from_bytes_whole_payload_signed_len1000", "around the 1000-byte DNS limit the signature is checked over every byte after the header (signed message length == 8 + payload length) and the accepted packet is the input", "packet of exactly 1000 bytes: header and last byte symbolic, rest zero", timeout=900, stub_env=True, stubs=["verify"]),
+        H(_P, "c32_from_bytes_whole_payload_signed_len1001", "same, one byte past the DNS limit", "packet of exactly 1001 bytes", timeout=900, stub_env=True, stubs=["verify"]),
+        H(_P, "c32_from_bytes_whole_payload_signed_len1104", "same, at the maximum signed-packet size", "packet of exactly 1104 bytes", timeout=900, stub_env=True, stubs=["verify"]),
         H(_P, "c32_size_limits", "too short / too long inputs rejected before any oracle is consulted", "lengths 0,1,96,103,1105"),
         H(_P, "c32_unchecked_is_safe_to_inspect", "values from from_bytes_unchecked / from_parts_unchecked can be inspected without panic", "106-byte inputs, all bytes symbolic", timeout=900, stub_env=True, stubs=["decompress", "Packet::parse"]),
         H(_P, "c32_parts_unchecked_k0_s0", "from_parts_unchecked with a 0-byte key and 0-byte signature part: whatever is returned Ok is a full header and can be inspected without panic", "12-byte payload; signature/timestamp/payload symbolic, key part zeros", timeout=900, stub_env=True, stubs=["decompress", "Packet::parse"]),
@@ -349,12 +356,19 @@ PROPS["C13"] = {
 
 _HK = "iroh__hooks"
 PROPS["C42"] = {
-    "functions": ["iroh::endpoint::hooks::EndpointHooksList::{push,after_handshake}", "DynEndpointHooks blanket impl (boxing of the hook futures)"],
-    "bounds": "lists of 0, 2 and 3 hooks with every accept/reject pattern and arbitrary error codes; real async fns polled with a no-op waker over always-ready mock hooks",
-    "out": "EndpointHooksList::before_connect (structurally identical loop; its harnesses did not finish within 300 s for reasons not understood - Debug formatting machinery gets explored - and are not registered); MOST of the property: the call sites (connect_with_opts stops before the handshake on a rejection, conn_from_noq_conn closes with the hook's code), the self-connect and empty-ALPN checks - they need a bound Endpoint / a live noq connection (tokio, sockets); by reading",
+    "functions": ["iroh::endpoint::hooks::EndpointHooksList::{push,before_connect,after_handshake}", "DynEndpointHooks blanket impl (boxing of the hook futures)"],
+    "bounds": "lists of 0, 2 and 3 hooks with every accept/reject pattern and arbitrary error codes; real async fns polled with a no-op waker over always-ready mock hooks; run with `-Z restrict-vtable` "
+              "(without it CBMC resolves the boxed future's `poll` by C-level signature, and `Poll<BeforeConnectOutcome>` - one byte - matches the poll function of every future of the crate: before_connect did not finish in 20 min even with 0 hooks; with the restriction 30-60 s)",
+    "out": "MOST of the property: the call sites (connect_with_opts stops before the handshake on a rejection, conn_from_noq_conn closes with the hook's code), the self-connect and empty-ALPN checks - they need a bound Endpoint / a live noq connection (tokio, sockets); by reading",
     "stubs": [],
-    "assumptions": ["before_connect / after_handshake are given references to leaked uninitialised EndpointAddr / Connection values that neither the list nor the mock hooks read"],
+    "kani_args": ["-Z", "restrict-vtable"],
+    "assumptions": ["before_connect / after_handshake are given references to leaked uninitialised EndpointAddr / Connection values that neither the list nor the mock hooks read",
+                    "Kani's vtable restriction (-Z restrict-vtable) is sound: a dyn call only reaches implementations of that trait method"],
     "harnesses": [
+        H(_HK, "c42_before_connect_0_hooks", "no hooks => Accept", "0 hooks"),
+        H(_HK, "c42_before_connect_2_hooks", "before_connect accepts iff every hook accepts; hooks are consulted in installation order and none after the first rejection", "2 hooks, all patterns"),
+        H(_HK, "c42_before_connect_3_hooks", "same", "3 hooks", timeout=900),
+        W(_HK, "c42_witness"),
         H(_HK, "c42_after_handshake_0_hooks", "no hooks => Accept", "0 hooks"),
         H(_HK, "c42_after_handshake_2_hooks", "result is the first rejecting hook's error code and reason, else Accept; order as above", "2 hooks, all patterns, any codes"),
         H(_HK, "c42_after_handshake_3_hooks", "same", "3 hooks", timeout=900),
@@ -364,13 +378,17 @@ PROPS["C42"] = {
 
 _V = "iroh__verifier"
 PROPS["C01"] = {
-    "functions": ["iroh::tls::verifier::Ed25519Dalek::verify_signature", "ClientCertificateVerifier::{verify_client_cert,offer_client_auth,requires_raw_public_keys}", "ServerCertificateVerifier::requires_raw_public_keys"],
-    "bounds": "raw key lengths 31..=33, signature lengths 63..=65, 4-byte message, all bytes symbolic; client certificate: every 44-byte string, 0 or 1 intermediate",
-    "out": "MOST of the property: ServerCertificateVerifier::verify_server_cert and tls::name::{encode,decode} - decode uses str::split(\".\") (Two-Way string searcher) and encode uses format!, neither finishes under CBMC even "
-           "for one concrete name (120 s) - so 'the certificate must be the SPKI of the dialed id' and the name round trip are NOT decided; the TLS handshake itself (rustls/noq), remote_id_from_noq_conn, connect_with_opts; Ed25519 (oracle)",
-    "stubs": [KEY_ORACLE, SIG_ORACLE, BT],
-    "assumptions": ["rustls verifies the handshake transcript signature through SignatureVerificationAlgorithm::verify_signature with the key of the presented raw-public-key certificate (rustls contract)"],
+    "functions": ["iroh::tls::verifier::ServerCertificateVerifier::{verify_server_cert,requires_raw_public_keys}", "rustls::sign::public_key_to_spki (real)", "iroh::tls::verifier::Ed25519Dalek::verify_signature",
+                  "ClientCertificateVerifier::{verify_client_cert,offer_client_auth,requires_raw_public_keys}"],
+    "bounds": "server certificate: every 44-byte end-entity string against every dialed id (and against the zero id for native replay), 0 or 1 intermediate; raw key lengths 31..=33, signature lengths 63..=65, 4-byte message, all bytes symbolic; client certificate: every 44-byte string, 0 or 1 intermediate",
+    "out": "tls::name::{encode,decode} - decode uses str::split(\".\") (Two-Way string searcher) and encode uses format!, neither finishes under CBMC even for one concrete name (120 s) - so the TLS-name round trip is NOT decided "
+           "(decode is replaced by a stub that returns the dialed id); end-entity lengths other than 44; the TLS handshake itself (rustls/noq), remote_id_from_noq_conn, connect_with_opts; Ed25519 (oracle)",
+    "stubs": [KEY_ORACLE, KEY_ALLVALID, SIG_ORACLE, BT, "iroh::tls::name::decode -> returns the dialed id chosen by the harness (the real decoder does not finish under CBMC)"],
+    "assumptions": ["rustls verifies the handshake transcript signature through SignatureVerificationAlgorithm::verify_signature with the key of the presented raw-public-key certificate (rustls contract)",
+                    "tls::name::decode(tls::name::encode(id)) == Some(id) (not decided here; covered by the repo's own unit tests)"],
     "harnesses": [
+        H(_V, "c01_server_cert_is_spki_of_dialed_id_zero_key", "verify_server_cert Ok iff the presented raw key is byte for byte the Ed25519 SPKI of the dialed id and there are no intermediates (zero id, real TLS name of the zero id: replays natively)", "every 44-byte end entity, 0/1 intermediate, dialed id = zero key", timeout=900),
+        H(_V, "c01_server_cert_is_spki_of_dialed_id_any_key", "same for every dialed id", "every 44-byte end entity, 0/1 intermediate, every 32-byte dialed id", timeout=900, stub_env=True, stubs=["name::decode"]),
         H(_V, "c01_handshake_signature_is_checked_with_the_presented_key", "verify_signature Ok iff 32-byte valid key, 64-byte signature and the oracle accepts exactly (key, message, signature)", "key 31..=33 B, signature 63..=65 B, all symbolic", timeout=900, stub_env=True, stubs=["decompress", "verify"]),
         H(_V, "c01_client_cert_no_intermediates", "client certificates accepted iff no intermediates; raw public keys required", "every 44-byte certificate", timeout=900),
         W(_V, "c01_witness", timeout=900),
